@@ -3,6 +3,9 @@ package hx
 import (
 	"encoding/json"
 	"fmt"
+	"os"
+	"path/filepath"
+	"sort"
 	"testing"
 )
 
@@ -36,6 +39,24 @@ func runHistProp(t *testing.T, e Env, hp *histProp) {
 			t.Fatal(err)
 		}
 		return
+	}
+	// minimised histories kept from earlier findings run first
+	if files, _ := filepath.Glob(filepath.Join(os.Getenv("HX_CORPUS"), hp.id, "*.json")); len(files) > 0 {
+		sort.Strings(files)
+		for _, f := range files {
+			b, err := os.ReadFile(f)
+			if err != nil {
+				t.Fatal(err)
+			}
+			var h HHistory
+			if err := json.Unmarshal(b, &h); err != nil {
+				t.Fatalf("%s: %v", f, err)
+			}
+			obs := runHistory(t, &h)
+			opHistogram(out, &h, obs)
+			out.Count("corpus")
+			out.Add(Case{Coq: coqHistory(&h, obs), Replay: &h, NonTrivial: true, Key: histKey(&h)})
+		}
 	}
 	n := hp.quickN
 	if e.Tier == "thorough" {
@@ -113,11 +134,11 @@ func init() {
 		PKCE: 10, Bad: 12, ShortLives: 25, MinOps: 8, MaxOps: 28, Smuggle: 10}
 	mk := func(id string, f func(p *Profile)) Profile { p := base; p.Name = id; f(&p); return p }
 	common := "seeded histories over authorize/redeem/refresh/revoke/introspect/advance/setclient with 2-4 clients, every access/refresh token probed after every step; distinct by operation list; non-trivial = "
-	regHist(&histProp{id: "C01", profile: mk("C01", func(p *Profile) {}), module: "Cases.CasesHist", checkFn: "check_C01", quickN: 300, thoroN: 4000,
+	regHist(&histProp{id: "C01", profile: mk("C01", func(p *Profile) {}), module: "Cases.Monitors", checkFn: "check_C01", quickN: 300, thoroN: 4000,
 		nontriv: func(h *HHistory, obs []HObs) bool { return hasReplay(h, obs, "redeem") },
 		rule:    common + "contains a second presentation of a code that was redeemed successfully"})
 	regHist(&histProp{id: "C02", profile: mk("C02", func(p *Profile) { p.WRedeem = 40; p.WRefresh = 8; p.Bad = 35; p.ShortLives = 60; p.Smuggle = 40; p.WAdvance = 14 }),
-		module: "Cases.CasesHist", checkFn: "check_C02", quickN: 300, thoroN: 4000,
+		module: "Cases.Monitors", checkFn: "check_C02", quickN: 300, thoroN: 4000,
 		nontriv: func(h *HHistory, obs []HObs) bool {
 			for i, op := range h.Ops {
 				if op.Kind == "redeem" && op.Tok.Ref >= 0 && !op.Tok.Tamper && obs[i].Err != "" && obs[i].Err != "invalid_client" {
@@ -128,7 +149,7 @@ func init() {
 		},
 		rule: common + "contains a refused redemption attempt of an issued code by an authenticated client (foreign client, other redirect_uri, expired, replay)"})
 	regHist(&histProp{id: "C03", profile: mk("C03", func(p *Profile) { p.PKCE = 90; p.PkceFlags = true; p.WRedeem = 45; p.WRefresh = 5; p.WRevoke = 2; p.Bad = 25; p.WAdvance = 3 }),
-		module: "Cases.CasesHist", checkFn: "check_C03", quickN: 300, thoroN: 5000,
+		module: "Cases.Monitors", checkFn: "check_C03", quickN: 300, thoroN: 5000,
 		nontriv: func(h *HHistory, obs []HObs) bool {
 			att := map[int]int{}
 			for _, op := range h.Ops {
@@ -143,11 +164,11 @@ func init() {
 		},
 		rule: common + "contains at least two redemption attempts on one code under randomised PKCE enforcement flags"})
 	regHist(&histProp{id: "C04", profile: mk("C04", func(p *Profile) { p.WRefresh = 40; p.WRedeem = 18; p.MaxOps = 36 }),
-		module: "Cases.CasesHist", checkFn: "check_C04", quickN: 300, thoroN: 4000,
+		module: "Cases.Monitors", checkFn: "check_C04", quickN: 300, thoroN: 4000,
 		nontriv: func(h *HHistory, obs []HObs) bool { return hasReplay(h, obs, "refresh") },
 		rule:    common + "contains a second presentation of a refresh token that was exchanged successfully"})
 	regHist(&histProp{id: "C05", profile: mk("C05", func(p *Profile) { p.WRefresh = 34; p.WSetClient = 10; p.Smuggle = 40; p.Bad = 22 }),
-		module: "Cases.CasesHist", checkFn: "check_C05", quickN: 300, thoroN: 4000,
+		module: "Cases.Monitors", checkFn: "check_C05", quickN: 300, thoroN: 4000,
 		nontriv: func(h *HHistory, obs []HObs) bool {
 			seenSet := false
 			for i, op := range h.Ops {
@@ -162,11 +183,11 @@ func init() {
 		},
 		rule: common + "contains a refresh by an authenticated client after a registration change or with smuggled scope/audience parameters"})
 	regHist(&histProp{id: "C07", profile: mk("C07", func(p *Profile) { p.ShortLives = 85; p.WAdvance = 26; p.WIntrospect = 8 }),
-		module: "Cases.CasesHist", checkFn: "check_C07", quickN: 300, thoroN: 4000,
+		module: "Cases.Monitors", checkFn: "check_C07", quickN: 300, thoroN: 4000,
 		nontriv: expiryObserved,
 		rule:    common + "some token is active before a clock advance and inactive right after it (an expiry was crossed)"})
 	regHist(&histProp{id: "C08", profile: mk("C08", func(p *Profile) { p.WRevoke = 30; p.Bad = 40 }),
-		module: "Cases.CasesHist", checkFn: "check_C08", quickN: 300, thoroN: 4000,
+		module: "Cases.Monitors", checkFn: "check_C08", quickN: 300, thoroN: 4000,
 		nontriv: func(h *HHistory, obs []HObs) bool {
 			for i, op := range h.Ops {
 				if op.Kind == "revoke" && op.Tok.Ref >= 0 && obs[i].Err == "" && i > 0 && op.Tok.Ref < len(obs[i-1].Probes) && obs[i-1].Probes[op.Tok.Ref] != nil {
@@ -177,7 +198,7 @@ func init() {
 		},
 		rule: common + "contains an accepted revocation of a token that was active just before"})
 	regHist(&histProp{id: "C09", profile: mk("C09", func(p *Profile) { p.WIntrospect = 18; p.WIntrospectEP = 22; p.WRevoke = 12 }),
-		module: "Cases.CasesHist", checkFn: "check_C09", quickN: 300, thoroN: 4000,
+		module: "Cases.Monitors", checkFn: "check_C09", quickN: 300, thoroN: 4000,
 		nontriv: func(h *HHistory, obs []HObs) bool {
 			act, inact := false, false
 			for _, o := range obs {
